@@ -128,6 +128,35 @@ Definition lex_use (s : str) : option str :=
     end
   else None.
 
+(* whole-statement tokenizer (schema export): identifiers (bare, folded; quoted), keywords (reserved bare words), string
+   literals, unsigned integers, every other non-blank character as punctuation.  One unit of fuel per token or blank. *)
+Inductive tok := TId (n : str) | TKw (w : str) | TStrLit (s : str) | TNum (z : Z) | TP (c : Z).
+
+Definition pre (t : tok) (o : option (list tok)) : option (list tok) :=
+  match o with Some l => Some (t :: l) | None => None end.
+
+Fixpoint tokenize (fuel : nat) (s : str) : option (list tok) :=
+  match fuel with
+  | O => None
+  | S f =>
+    match s with
+    | [] => Some []
+    | c :: s' =>
+      if is_space c then tokenize f s'
+      else if c =? SQ then match lex_quoted_body SQ s' with Some (v, r) => pre (TStrLit v) (tokenize f r) | None => None end
+      else if c =? DQ then match lex_quoted_body DQ s' with Some (v, r) => pre (TId v) (tokenize f r) | None => None end
+      else if is_letter c then
+        let (w, r) := span is_ident_char s in
+        let lw := map to_lower w in
+        pre (if reserved lw then TKw lw else TId lw) (tokenize f r)
+      else if is_digit c then
+        let (d, r) := span is_digit s in pre (TNum (digits_value d)) (tokenize f r)
+      else pre (TP c) (tokenize f s')
+    end
+  end.
+
+Definition tokenize_all (s : str) : option (list tok) := tokenize (S (length s)) s.
+
 (* ---------- Part 2: the driver ---------- *)
 (* str.replace(q, q q) *)
 Definition double_q (q : Z) (s : str) : str := flat_map (fun c => if c =? q then [q; q] else [c]) s.
@@ -170,6 +199,22 @@ Definition is_valid_name := is_valid_name_d word_re_dollar.
 Definition maybe_escape_name := maybe_escape_name_d word_re_dollar.
 Definition protect_name := maybe_escape_name.
 Definition protect_names (ns : list str) : list str := map protect_name ns.
+
+(* ', '.join(protect_names(names)) and the producers of cassandra/metadata.py built from it *)
+Definition join (sep : str) (l : list str) : str :=
+  match l with [] => [] | x :: l' => x ++ flat_map (fun y => sep ++ y) l' end.
+Definition names_joined (ns : list str) : str := join [44; 32] (map protect_name ns).
+
+(* TableMetadataDSE68._export_edge_as_cql(label_name, partition_keys, clustering_columns, keyword):
+     " KW label(" + (pk | "(" pk, pk ")") + [", " cc, cc] + ")"  -- every name through protect_name *)
+Definition export_edge (keyword label : str) (pks ccs : list str) : str :=
+  32 :: keyword ++ 32 :: protect_name label ++ 40 ::
+  (match pks with [k] => protect_name k | _ => 40 :: names_joined pks ++ [41] end) ++
+  (match ccs with [] => [] | _ => 44 :: 32 :: names_joined ccs end) ++ [41].
+
+(* a dict of str -> str through the Encoder (IndexMetadata.as_cql_query, WITH OPTIONS = ...): {'k': 'v', ...} with cql_quote *)
+Definition string_map (kvs : list (str * str)) : str :=
+  123 :: join [44; 32] (map (fun kv => cql_quote (fst kv) ++ 58 :: 32 :: cql_quote (snd kv)) kvs) ++ [125].
 
 (* decimal printing of Python ints *)
 Fixpoint le_digits (fuel : nat) (n : Z) : list Z :=
